@@ -55,6 +55,7 @@ def process_run_contract(ex, lid='L2', inject=None, cls=PW, prop='C16'):
     def setup(ex_, env):
         process_child(ex_, env, cls)
         ex_.ghost['__childenv__'] = env
+        ex_.ghost['__child_kind__'] = 'process'
 
     def reported(c):
         """what the parent will find in the result pipe"""
@@ -151,6 +152,7 @@ def process_run_injected(ex, lid, prop, cls=PW, budget=1):
     def setup(ex_, env):
         process_child(ex_, env, cls)
         ex_.ghost['__childenv__'] = env
+        ex_.ghost['__child_kind__'] = 'process'
 
     def region(interp, st, fr):
         if fr.fi.name == '_run':
